@@ -700,7 +700,7 @@ func ruleText() string {
 const c03Rule = "corpus cases (witnesses of the two defects and of the path-origin finding); every history of 1..D calls (D=3 quick, 4 thorough) over an alphabet of 13 calls on target t " +
 	"(scalar a/b with two values and two timestamps, scalar a/c, atomic container at a/b, multi update+delete (2+1 and 1+1), deletes a/b a/* *, Reset, Remove, Add), event-driven on; " +
 	"seeded random histories of 2..25 calls over two targets (as C02, plus Reset/Remove/Add/Sync/Connect/ConnectError/UpdateMetadata under a non-decreasing clock); " +
-	"aliasing histories (2..4 leaves written through one shared prefix object with 1..3 spare slots in every slice-typed field, in the elem, the deprecated element and the mixed encodings, singly or by one multi-update, then subtree / wildcard / single / double deletes, Reset, Remove+Add); two-writer histories; " +
+	"aliasing histories (2..4 leaves written through one shared prefix object with 1..3 spare slots in every slice-typed field, in the elem, the deprecated element and the mixed encodings, singly, by one multi-update or as ONE atomic container (a quarter of the cases), then subtree / wildcard / single / double deletes, Reset, Remove+Add); two-writer histories; " +
 	"atomic<->scalar histories on one index path with equal and different first values, event-driven on and off; " +
 	"look-alike value histories (per leaf, successive updates from one pool of easily confused values: re-scaled decimals, decimals collapsing in float32/float64, leaf-lists that are prefixes of each other / differ in the last element / nested, the same number as int/uint/string/bytes/json/ascii/decimal/float/double, float vs double, +0/-0, NaN, near-equal strings); " +
 	"mixed elem/element encodings of prefix and path with siblings, then subtree / wildcard / leaf deletes and Reset; " +
@@ -809,7 +809,29 @@ func aliasCase(r *vh.Rand) *Case {
 	leaves := [][]string{{"x"}, {"y"}, {"z"}, {"x", "w"}, {"v", "w"}}
 	k := 2 + r.Intn(3)
 	used := map[string]bool{}
-	if r.Chance(1, 4) { // the leaves arrive in ONE multi-update notification through the shared prefix
+	// round 7: an ATOMIC container written through the shared prefix object (its
+	// delete notification is built by the atomic branch of toDeleteNotification,
+	// which hands out the stored prefix slices: an append there would land in the
+	// caller's spare capacity), re-sent now and then, then deleted like the rest
+	atomicVariant := r.Chance(1, 4)
+	if atomicVariant {
+		n := &NotiJ{TS: int64(1 + r.Intn(2)), Prefix: shared(), PfxID: 1, PfxSpare: spare, Atomic: true}
+		for _, lf := range leaves[:k] {
+			if used[lf[0]] {
+				continue
+			}
+			used[lf[0]] = true
+			n.Upd = append(n.Upd, UpdJ{Path: leafPath(lf...), Val: ival(int64(1 + r.Intn(2)))})
+		}
+		c.Ops = append(c.Ops, Op{K: "upd", N: n})
+		if r.Chance(1, 3) { // the container again, newer, through the same prefix object
+			m := &NotiJ{TS: n.TS + 1, Prefix: shared(), PfxID: 1, PfxSpare: spare, Atomic: true}
+			m.Upd = append(m.Upd, UpdJ{Path: leafPath("x"), Val: ival(5)})
+			c.Ops = append(c.Ops, Op{K: "upd", N: m})
+		}
+		k = 0
+	}
+	if !atomicVariant && r.Chance(1, 4) { // the leaves arrive in ONE multi-update notification through the shared prefix
 		n := &NotiJ{TS: 1, Prefix: shared(), PfxID: 1, PfxSpare: spare}
 		for _, lf := range leaves[:k] {
 			if used[lf[0]] {
@@ -869,9 +891,10 @@ func aliasCase(r *vh.Rand) *Case {
 			d = delN(ts, &PathJ{Target: "t"}, &PathJ{Element: q})
 		}
 		c.Ops = append(c.Ops, Op{K: "upd", N: d})
-		if r.Chance(1, 3) { // re-add one leaf through the shared prefix
+		if r.Chance(1, 3) { // re-add one leaf (the container) through the shared prefix
 			n := updN(ts+1, shared(), leafPath("x"), ival(3))
 			n.PfxID, n.PfxSpare = 1, spare
+			n.Atomic = atomicVariant
 			c.Ops = append(c.Ops, Op{K: "upd", N: n})
 		}
 	}
